@@ -47,13 +47,20 @@ type StmtRule struct {
 	Rule    string // leftpad | trust | assert
 	Label   string
 	Args    []ast.Expr
+	From    []string
 	Used    bool
 }
+
+type LogicalVar struct{ Name, Kind string }
 
 type GhostDecl struct {
 	Name string
 	Sort *Sort
 	Var  bool // global ghost variable rather than a per-object field
+	// representation: inside the home package the field is not ghost state but this
+	// expression over the concrete object (named self); outside it is abstract state
+	Rep     ast.Expr
+	HomePkg string
 }
 
 type Macro struct {
@@ -78,7 +85,12 @@ type Contract struct {
 	ReturnsIfVal []ast.Expr
 	ReturnsElse  ast.Expr
 	UseAxioms    []string
+	NoMerge      bool // keep execution paths separate instead of merging them with ite
+	Prune        bool // decide branch conditions with the solver where the path condition settles them
 	StmtRules    []StmtRule
+	AbstractSpecs []string
+	Logical      []LogicalVar
+	Inst         map[string]map[string]ast.Expr // callee key -> logical variable -> instantiation
 	Loops     map[int]*LoopContract
 	Inline    bool
 	Assume    bool
@@ -280,6 +292,15 @@ func (eng *Engine) loadContractFile(file string) error {
 			continue
 		}
 		if kw == "ghostfield" || kw == "ghostvar" {
+			var rep ast.Expr
+			if i := strings.Index(rest, " rep "); i >= 0 {
+				e, err := parseSpecExpr(strings.TrimSpace(rest[i+5:]))
+				if err != nil {
+					return errf("%v", err)
+				}
+				rep = e
+				rest = strings.TrimSpace(rest[:i])
+			}
 			f := strings.Fields(rest)
 			if len(f) != 2 {
 				return errf("%s name Sort", kw)
@@ -293,7 +314,10 @@ func (eng *Engine) loadContractFile(file string) error {
 			default:
 				return errf("ghost sort %s", f[1])
 			}
-			eng.ghosts[f[0]] = &GhostDecl{Name: f[0], Sort: so, Var: kw == "ghostvar"}
+			if old, ok := eng.ghosts[f[0]]; ok && old.Rep != nil && rep == nil {
+				continue // keep the declaration that carries the representation
+			}
+			eng.ghosts[f[0]] = &GhostDecl{Name: f[0], Sort: so, Var: kw == "ghostvar", Rep: rep, HomePkg: pkgOfFile(string(data))}
 			continue
 		}
 		if kw == "uf" {
@@ -389,6 +413,10 @@ func (eng *Engine) loadContractFile(file string) error {
 			}
 		case "inline":
 			cur.Inline = true
+		case "prune_branches":
+			cur.Prune = true
+		case "no_merge":
+			cur.NoMerge = true
 		case "after":
 			i := strings.Index(rest, " :: ")
 			if i < 0 {
@@ -397,13 +425,14 @@ func (eng *Engine) loadContractFile(file string) error {
 			r := StmtRule{Text: normSpace(rest[:i])}
 			body := strings.TrimSpace(rest[i+4:])
 			switch {
-			case strings.HasPrefix(body, "trust "), strings.HasPrefix(body, "assert "):
+			case strings.HasPrefix(body, "trust "), strings.HasPrefix(body, "assert "), strings.HasPrefix(body, "unfold "):
 				r.Rule = strings.Fields(body)[0]
 				c, err := parseClause(strings.TrimSpace(body[len(r.Rule):]))
 				if err != nil {
 					return errf("%v", err)
 				}
 				r.Label = c.Label
+				r.From = c.From
 				r.Args = []ast.Expr{c.Expr}
 			default:
 				e, err := parseSpecExpr(body)
@@ -418,6 +447,37 @@ func (eng *Engine) loadContractFile(file string) error {
 				r.Args = call.Args
 			}
 			cur.StmtRules = append(cur.StmtRules, r)
+		case "abstract":
+			cur.AbstractSpecs = append(cur.AbstractSpecs, strings.Fields(strings.ReplaceAll(rest, ",", " "))...)
+		case "logical":
+			f := strings.Fields(rest)
+			if len(f) != 2 {
+				return errf("logical name bytes|int")
+			}
+			cur.Logical = append(cur.Logical, LogicalVar{f[0], f[1]})
+		case "inst":
+			// inst <callee key> : v = expr, w = expr
+			i := strings.Index(rest, " : ")
+			if i < 0 {
+				return errf("inst callee : var = expr, ...")
+			}
+			callee := strings.TrimSpace(rest[:i])
+			if cur.Inst == nil {
+				cur.Inst = map[string]map[string]ast.Expr{}
+			}
+			m := map[string]ast.Expr{}
+			for _, part := range strings.Split(rest[i+3:], ";") {
+				eq := strings.Index(part, "=")
+				if eq < 0 {
+					return errf("inst: var = expr")
+				}
+				e, err := parseSpecExpr(strings.TrimSpace(part[eq+1:]))
+				if err != nil {
+					return errf("%v", err)
+				}
+				m[strings.TrimSpace(part[:eq])] = e
+			}
+			cur.Inst[callee] = m
 		case "use_axiom":
 			cur.UseAxioms = append(cur.UseAxioms, strings.Fields(strings.ReplaceAll(rest, ",", " "))...)
 		case "opaque_products":
@@ -553,6 +613,28 @@ func (ex *exec) loopContract(fr *frame, ord int) *LoopContract {
 	return ct.Loops[ord]
 }
 
+// termSize counts DAG nodes up to a limit.
+func termSize(t *Term, limit int) int {
+	seen := map[*Term]bool{}
+	var rec func(t *Term)
+	rec = func(t *Term) {
+		if seen[t] || len(seen) >= limit {
+			return
+		}
+		seen[t] = true
+		for _, a := range t.Args {
+			rec(a)
+		}
+		if t.Op == "poly" {
+			for _, a := range t.Poly.atoms() {
+				rec(a)
+			}
+		}
+	}
+	rec(t)
+	return len(seen)
+}
+
 func normSpace(s string) string { return strings.Join(strings.Fields(s), " ") }
 
 var srcCache = map[string][]byte{}
@@ -589,6 +671,9 @@ func (ex *exec) applyGhost(st *State, s ast.Stmt, when string) {
 		return
 	}
 	txt := ex.stmtText(s)
+	saved := ex.midBody
+	ex.midBody = true
+	defer func() { ex.midBody = saved }()
 	for i := range ct.StmtRules {
 		r := &ct.StmtRules[i]
 		if r.Text != txt {
@@ -599,13 +684,56 @@ func (ex *exec) applyGhost(st *State, s ast.Stmt, when string) {
 		case "trust":
 			env := ex.newSpecEnv(st, fr, nil)
 			env.assume = true
-			st.assume(env.toBool(env.eval(r.Args[0])))
+			tt := env.toBool(env.eval(r.Args[0]))
+			st.assume(tt)
+			st.name(r.Label, tt)
 			ex.trustedClauses[fr.fi.Key+"/"+r.Label+": "+exprString(r.Args[0])] = true
 			ex.rewriteByEquation(st, fr, r.Args[0])
 		case "assert":
 			env := ex.newSpecEnv(st, fr, nil)
-			ex.oblige(st, "assert", r.Label, env.toBool(env.eval(r.Args[0])), s.Pos())
+			npc0 := len(st.pc)
+			g := env.toBool(env.eval(r.Args[0]))
+			if len(r.From) > 0 {
+				// structured step: only the named facts and the small quantifier-free facts of
+				// the path condition are hypotheses
+				sub := &State{vars: st.vars, heap: st.heap, ghost: st.ghost, gver: st.gver, rw: st.rw}
+				for _, f := range r.From {
+					if f == "-" {
+						continue
+					}
+					t, ok := st.named[f]
+					if !ok {
+						ex.fail(s.Pos(), "assert %s: no fact named %s", r.Label, f)
+					}
+					sub.pc = append(sub.pc, t)
+				}
+				for i, p := range st.pc {
+					// small facts of the path, and the definitional facts introduced by evaluating the goal itself
+					if i >= npc0 || (!hasQuantifier(p) && termSize(p, 60) < 60) {
+						sub.pc = append(sub.pc, p)
+					}
+				}
+				n0 := len(ex.obligs)
+				ex.oblige(sub, "assert", r.Label, g, s.Pos())
+				for _, ob := range ex.obligs[n0:] {
+					ob.AltHyps = append([]*Term{}, st.pc...)
+				}
+				st.assume(g)
+			} else {
+				ex.oblige(st, "assert", r.Label, g, s.Pos())
+			}
+			st.name(r.Label, g)
 			ex.rewriteByEquation(st, fr, r.Args[0])
+		case "unfold":
+			// an instance of the definition of a (recursive) spec function: proved on its own,
+			// without hypotheses, from the definitions in the spec library, then available here
+			env := ex.newSpecEnv(st, fr, nil)
+			f := env.toBool(env.eval(r.Args[0]))
+			empty := &State{vars: st.vars, heap: st.heap, ghost: st.ghost, gver: st.gver}
+			ex.oblige(empty, "unfold", r.Label, f, s.Pos())
+			ex.obligs[len(ex.obligs)-1].NoAbstract = true
+			st.assume(f)
+			st.name(r.Label, f)
 		case "leftpad":
 			ex.ruleLeftPad(st, fr, r, s.Pos())
 		case "reveal":
@@ -719,6 +847,13 @@ func (ex *exec) newSpecEnv(st *State, fr *frame, extra map[string]Value) *specEn
 	if fr != nil {
 		env.old = fr.entry
 		for k, v := range fr.params {
+			if ex.midBody {
+				// inside the body (invariants, proof steps) a parameter name denotes the
+				// current value of that variable; logical variables keep their binding
+				if _, isLocal := env.lookupLocal(k); isLocal {
+					continue
+				}
+			}
 			env.names[k] = v
 		}
 	}
@@ -928,8 +1063,21 @@ func (env *specEnv) eval(e ast.Expr) Value {
 		case *Slice:
 			sv = b
 		default:
-			// slicing an array variable / pointer to array
+			// slicing an array variable / pointer to array / array value
 			p, isP := base.(*Ptr)
+			if at, isT := base.(*Term); isT && at.Sort.K == KArr {
+				o := ex.newObj(nil, "arrayvalue", true)
+				env.st.heap[o] = at
+				lo := ex.idxConst(0)
+				if x.Low != nil {
+					lo = env.toIdx(env.eval(x.Low))
+				}
+				if x.High == nil {
+					env.fail("slice of an array value needs an upper bound")
+				}
+				hi := env.toIdx(env.eval(x.High))
+				return &Slice{Base: &Ptr{Obj: o}, Off: lo, Len: ex.sub(hi, lo), Cap: ex.sub(hi, lo), Nil: False}
+			}
 			if !isP {
 				p = env.loc(x.X)
 			}
@@ -1720,6 +1868,22 @@ func (env *specEnv) call(c *ast.CallExpr) Value {
 		}
 		return ex.idxConst(0)
 	}
+	if gd, ok := ex.eng.ghosts[name]; ok && !gd.Var && gd.Rep != nil && ex.root.Pkg.Name == gd.HomePkg {
+		// home package: the abstract field is its representation expression over the object
+		sub := *env
+		sub.names = map[string]Value{}
+		for k, v := range env.names {
+			sub.names[k] = v
+		}
+		self := arg(0)
+		if _, isP := self.(*Ptr); !isP {
+			if l := env.loc(c.Args[0]); l != nil {
+				self = l
+			}
+		}
+		sub.names["self"] = self
+		return sub.eval(gd.Rep)
+	}
 	if gd, ok := ex.eng.ghosts[name]; ok && !gd.Var {
 		pv, ok := arg(0).(*Ptr)
 		if !ok {
@@ -1819,6 +1983,9 @@ func (env *specEnv) flatten(v Value) []*Term {
 		a, ok := env.load(x.Base).(*Term)
 		if !ok {
 			env.fail("slice of non-scalars passed to spec function")
+		}
+		if x.Base.Obj != nil && strings.HasPrefix(x.Base.Obj.name, "logical.") && x.Off.IsConst() && x.Off.Val.Sign() == 0 {
+			return []*Term{a} // a logical byte stream is passed as its array
 		}
 		return []*Term{a, x.Off}
 	case *Ptr:
